@@ -327,6 +327,47 @@ func main() {
 		b.WriteString("def qElement : List Nat := " + leanNatList(compositeUints(topLevelValue(fr, "qElement"))) + "\n")
 		b.WriteString("def rSquare : List Nat := " + leanNatList(compositeUints(topLevelValue(fr, "rSquare"))) + "\n")
 		b.WriteString("def limbs : Nat := " + exprStr(topLevelValue(fr, "Limbs")) + "\n")
+		// Inverse: initial values of u and s, and every other integer literal it uses
+		{
+			inv := findMethod(fr, "Inverse")
+			inits := map[string][]string{}
+			inComposite := map[*ast.BasicLit]bool{}
+			ast.Inspect(inv, func(n ast.Node) bool {
+				if ds, ok := n.(*ast.DeclStmt); ok {
+					for _, sp := range ds.Decl.(*ast.GenDecl).Specs {
+						if vs, ok := sp.(*ast.ValueSpec); ok && len(vs.Names) == 1 && len(vs.Values) == 1 {
+							if cl, ok := vs.Values[0].(*ast.CompositeLit); ok {
+								inits[vs.Names[0].Name] = compositeUints(cl)
+								for _, e := range cl.Elts {
+									if bl, ok := e.(*ast.BasicLit); ok {
+										inComposite[bl] = true
+									}
+								}
+							}
+						}
+					}
+				}
+				return true
+			})
+			if inits["u"] == nil || inits["s"] == nil {
+				die("Inverse: initialisers of u and s not found")
+			}
+			b.WriteString("def inverseInitU : List Nat := " + leanNatList(inits["u"]) + "\n")
+			b.WriteString("def inverseInitS : List Nat := " + leanNatList(inits["s"]) + "\n")
+			lits := map[string]bool{}
+			ast.Inspect(inv, func(n ast.Node) bool {
+				if bl, ok := n.(*ast.BasicLit); ok && bl.Kind == token.INT && !inComposite[bl] {
+					lits[bl.Value] = true
+				}
+				return true
+			})
+			var ls []string
+			for l := range lits {
+				ls = append(ls, l)
+			}
+			sort.Strings(ls)
+			b.WriteString("def inverseLiterals : List Nat := " + leanNatList(ls) + "\n")
+		}
 		b.WriteString("def bits : Nat := " + exprStr(topLevelValue(fr, "Bits")) + "\n")
 		// SetOne limbs
 		var one []string
